@@ -277,6 +277,17 @@ class SbxRun:
         if kind == 'run':
             o['returned_self'] = ret is sb
         else:
+            # the returned proxy remembers which execution produced it: that record must exist and be this one
+            try:
+                from_ctx = sb.get_context(ret._actual_context_id) if type(ret) is _SR[0] else None
+                if from_ctx is None:
+                    o['ctx_lookup'] = None
+                else:
+                    c = from_ctx[-1]
+                    o['ctx_lookup'] = {'kind': c.kind, 'called': c.called, 'code': c.code[:80],
+                                       'is_newest': bool(sb._context) and c is sb._context[-1]}
+            except BaseException as e:
+                o['ctx_lookup'] = {'error': type(e).__name__}
             r = unwrap(ret)
             if isinstance(r, BaseException):
                 o['ret'] = ('exception', type(r).__name__)
